@@ -79,5 +79,9 @@ class DiscreteRV:
         """
         random_state = check_random_state(random_state)
 
-        return self.Q.searchsorted(random_state.uniform(0, 1, size=k),
-                                   side='right')
+        # The floating point cumulative sum Q[-1] may fall slightly short
+        # of 1; scale the draws so that none lands beyond the last index
+        scale = min(self.Q[-1], 1.0)
+        return self.Q.searchsorted(
+            random_state.uniform(0, 1, size=k) * scale, side='right'
+        )
